@@ -7,7 +7,7 @@ from .values import (HViewList, HArr, HArr2, HList, HObj, HStruct, Ref, SliceV, 
                      Module, ClassV, ExcClass, ExcValue, Bound, Opaque, SpecLambda, UNDEF, to_z3, truth, zand, zor,
                      znot, zimplies, kind_of, is_sym, as_const, SORTS)
 from .engine_expr import GenExp, RangeV, EnumV, ZipV, SpecArr, POISON, Poison
-from .nplib import fresh, I, R, B, ufunc
+from .nplib import fresh, I, R, B, ufunc, lift_lambda
 
 INT_DTYPES = {"i8", "i4", "i2", "i1", "u8", "u4", "u2", "u1", "int", "int64", "int32", "intp", "<i8", ">i8", "uint64"}
 REAL_DTYPES = {"f8", "f4", "float", "float64", "float32", "<f8", ">f8", "double"}
@@ -726,7 +726,25 @@ class PrimMixin:
         """SUM(a) / SUM(a, n): uninterpreted sum of the first n cells of array term a"""
         a = self.spec_arr(args[0], st)
         n = to_z3(args[1], "int") if len(args) > 1 else to_z3(a.n, "int")
-        return self.sum_term(a.data, n, a.kind)
+        r = self.sum_term(a.data, n, a.kind)
+        if a.kind in ("real", "int"):
+            self.sum_sign_facts(st, a.data, n, r)
+        return r
+
+    def sum_sign_facts(self, st, t, n, r):
+        k, k2 = fresh("k", I), fresh("k", I)
+        f1 = z3.Implies(z3.ForAll([k], z3.Implies(z3.And(k >= 0, k < n), z3.simplify(t[k]) >= 0)), r >= 0)
+        f2 = z3.Implies(z3.And(n >= 1, z3.ForAll([k2], z3.Implies(z3.And(k2 >= 0, k2 < n), z3.simplify(t[k2]) > 0))), r > 0)
+        done = st.ghost.get("sumfacts", frozenset())
+        if r.get_id() in done:
+            return
+        st.ghost["sumfacts"] = done | {r.get_id()}
+        _KEEPALIVE.append(r)
+        st.pc.append(f1)
+        st.pc.append(f2)
+        self.use("numpy sum: a sum of non-negative cells is non-negative; a non-empty sum of positive cells is positive")
+
+    _sum_facts_done = set()
 
     def sum_term(self, data, n, kind):
         srt = SORTS[kind] if kind != "bool" else I
@@ -735,7 +753,7 @@ class PrimMixin:
             data = z3.Lambda([i], z3.If(data[i], 1, 0))
         f = ufunc("SUM_" + kind, z3.ArraySort(I, srt), I, srt)
         self.use("sum over an array: uninterpreted function SUM(array, n) (no arithmetic axioms beyond those stated in specs)")
-        return f(data, to_z3(n, "int"))
+        return f(lift_lambda(data), to_z3(n, "int"))
 
     # ============================================================ numpy: construction
     def dtype_kind(self, dt, node=None):
@@ -1061,10 +1079,36 @@ class PrimMixin:
         n, t = self.arr_term(st, a)
         r = self.sum_term(t, n, h.kind)
         if h.kind in ("real", "int"):
-            k = fresh("k", I)
-            self.assume(st, z3.Implies(z3.ForAll([k], z3.Implies(z3.And(k >= 0, k < to_z3(n, "int")), z3.simplify(t[k]) >= 0)), r >= 0))
-            self.use("numpy sum: a sum of non-negative cells is non-negative")
+            self.sum_sign_facts(st, t, to_z3(n, "int"), r)
         return r
+
+    def _stat(self, name, args, st, fr, node):
+        """mean / std / median of a 1-d array: uninterpreted functions of (content, length) - numpy's definitions are assumed"""
+        a = args[0]
+        h = st.get(a)
+        if not isinstance(h, HArr):
+            raise Unsupported("%s of a non 1-d array" % name, node)
+        n, t = self.arr_term(st, a)
+        if not fr.spec:
+            self.oblige(st, to_z3(n, "int") >= 1, "safety", "reduce-nonempty", node, fr)
+        tt = t
+        if h.kind != "real":
+            i = z3.Int("i!c")
+            tt = z3.Lambda([i], self.coerce_term(t[i], h.kind, "real"))
+        f = ufunc("STAT_" + name, z3.ArraySort(I, R), I, R)
+        self.use("numpy %s of a 1-d array: uninterpreted function of the cells (numpy's definition assumed)" % name)
+        return f(lift_lambda(tt), to_z3(n, "int"))
+
+    def nd_mean(self, args, kw, st, fr, node):
+        return self._stat("mean", args, st, fr, node)
+
+    def nd_std(self, args, kw, st, fr, node):
+        return self._stat("std", args, st, fr, node)
+
+    def np_median(self, args, kw, st, fr, node):
+        return self._stat("median", args, st, fr, node)
+
+    np_mean, np_std = nd_mean, nd_std
 
     def np_sum(self, args, kw, st, fr, node):
         return self.nd_sum(args, kw, st, fr, node)
@@ -1247,6 +1291,7 @@ class PrimMixin:
         return self.getattr(args[0], "size", st, fr, node)
 
 
+_KEEPALIVE = []
 import itertools as _itx
 _mc = _itx.count()
 
